@@ -182,6 +182,8 @@ func (vt *Model) sgr(params [][]int) {
 			}
 		case 49:
 			vt.cursor.Background = 0
+		case 59:
+			vt.cursor.UnderlineColor = 0
 		case 58:
 			switch len(params[i]) {
 			case 1:
